@@ -66,7 +66,7 @@ func genC20(seed uint64, tier string) *Tape {
 		}
 	}
 	// faults stop, then the client must converge
-	t.Steps = append(t.Steps, Step{Op: "healall"}, Step{Op: "sleep", X: 61000}, Step{Op: "add"}, Step{Op: "add"}, Step{Op: "add"}, Step{Op: "read", Kind: "digest"}, Step{Op: "read", Kind: "membership"})
+	t.Steps = append(t.Steps, Step{Op: "healall"}, Step{Op: "sleep", X: 61000}, Step{Op: "add"}, Step{Op: "add"}, Step{Op: "add"}, Step{Op: "read", Kind: "digest"}, Step{Op: "read", Kind: "membership"}, Step{Op: "fair", K: 2*n + 1 + rng.IntN(2*n)})
 	return t
 }
 
@@ -271,9 +271,13 @@ func execC20(r *Run) {
 	// failed selection inside the client may have revived endpoints unseen, so
 	// an oracle fires only on what is known for certain.
 	revive := r.Cfg("fix_revive") == 1
+	var readHosts []string // endpoints selected by the reads of the last digested call
+	sawDiscovery := false
 	digest := func(what string, callErr error, isRead bool) {
 		recs := net.take()
 		lastHost, attempts := "", 0
+		readHosts = readHosts[:0]
+		sawDiscovery = false
 		firstWrite := true
 		redirectedFrom := ""
 		touched := map[string]bool{}
@@ -331,6 +335,7 @@ func execC20(r *Run) {
 				continue
 			case "discovery":
 				r.Count("net.discovery")
+				sawDiscovery = true
 				// inside a read call discovery only runs after a selection found
 				// nothing — which, with revival on, has just revived every endpoint
 				if isRead && revive {
@@ -354,6 +359,7 @@ func execC20(r *Run) {
 					attempts++ // a retry of the same attempt, not a new selection
 				} else {
 					lastHost, attempts = u, 1
+					readHosts = append(readHosts, u)
 					// With revival on, a selection that finds nothing marks every endpoint
 					// alive again, so a dead endpoint may legitimately be tried again —
 					// unless some endpoint was certainly alive and permitted, in which
@@ -549,6 +555,66 @@ func execC20(r *Run) {
 			} else if after-before > want {
 				wrongAck("%s executed %d insertions", what, after-before)
 			}
+		case "fair":
+			// "cycling fairly among them": with every endpoint's state known for
+			// certain and no fault in flight, k successive reads must spread over
+			// the live permitted endpoints with counts that differ by at most one.
+			stateKey := func() string {
+				k := model.primary + "|"
+				for _, e := range model.endpoints {
+					k += fmt.Sprintf("%s=%d,", e, model.state[e])
+				}
+				return k
+			}
+			certain := true
+			var permitted []string
+			for _, e := range model.endpoints {
+				if model.state[e] == stUnknown {
+					certain = false
+				}
+			}
+			for _, e := range model.endpoints {
+				if model.state[e] == stAlive && model.excluded(pref, e) == "" {
+					permitted = append(permitted, e)
+				}
+			}
+			if !certain || len(permitted) < 2 || log.version() == 0 {
+				r.Count("probe.fairness_skipped_uncertain_or_single")
+				break
+			}
+			before := stateKey()
+			hits := map[string]int{}
+			ok := true
+			cur := log.version()
+			for j := 0; j < s.K && ok; j++ {
+				v := cur - 1
+				cerr := call(fmt.Sprintf("Fair#%d.%d", i, j), true, func() error {
+					_, e := cl.Incremental(0, v)
+					return e
+				})
+				if cerr != nil || sawDiscovery || len(readHosts) != 1 || stateKey() != before {
+					ok = false
+					break
+				}
+				hits[readHosts[0]]++
+			}
+			if !ok {
+				r.Count("probe.fairness_skipped_disturbed")
+				break
+			}
+			lo, hi := s.K, 0
+			for _, e := range permitted {
+				if hits[e] < lo {
+					lo = hits[e]
+				}
+				if hits[e] > hi {
+					hi = hits[e]
+				}
+			}
+			if hi-lo > 1 {
+				r.Fail("fair-cycling", "%d successive reads with preference %d over the live permitted endpoints %v were distributed %v (counts must differ by at most one)", s.K, pref, permitted, hits)
+			}
+			r.Count("oracle.fair_cycling_checked")
 		case "read":
 			what := fmt.Sprintf("Read#%d/%s", i, s.Kind)
 			cur := log.version()
